@@ -126,6 +126,11 @@ def c02(tier):
         cases.append(run_case(whole))
         cases.append(runs_case(msgs))
         cases.append(proc_case(whole, 64, random_chunks(s.rng, len(whole))))
+    pay = [m for m in c08_messages(s.rng, "quick") if m.count(b"\n") > 1 and b";" in m]
+    s.rng.shuffle(pay)
+    for m in pay[:60 if tier == "quick" else 600]:
+        n = len(m)
+        cases.append(procset_case(m, 64, [{"chunks": []}, {"chunks": [1] * n}] + [{"chunks": [k, n - k]} for k in range(1, n)]))
     recs = s.execute(cases, "c02")
     rejected = s.validate(recs, "c02")
     s.report_rejected(rejected, "handler calls / errors / output differ from what the path rules of the specification allow")
@@ -244,7 +249,7 @@ def selftest():
 
 # ----------------------------------------------------------------------- C07
 VOCAB_FAULT = ["D", "A:B", ":C", "*X", "B:D?", "Z", "A", "D !", "A:N", "A:N 999", "A:N 'x'", "A:T 2", "A:F", "A:G?",
-               "A:N 7", "A:E? 'q'"]
+               "A:N 7", "A:E? 'q'", "D \"a'b\" !", "Z \"it's\"", "A:S 'say \"hi' x"]
 TINY_SIGMA = "AB:?;\n \"!"
 
 
@@ -564,6 +569,8 @@ C11_UNITS = [
     (["A", "N"], False, ["#H1F"]),
     (["O", "D", "B"], False, []),
     (["A", "S"], False, ["'x'"]),
+    (["LONGmnemonicname", "SUBsystemlevel"], True, []),
+    (["LONGmnemonicname", "Wide_identifier_1"], False, ["5"]),
 ]
 WS = [bytes([x]) for x in list(range(0, 10)) + list(range(11, 33))]
 
@@ -867,6 +874,8 @@ def tree_pool(tier):
     for (a, c, d) in [("Cd", "Ab", "AB"), ("Cd", "Ab", "Bc"), ("Ab", "Bc", "Cd")]:
         for fmt in ("%s:[%s]:[%s]", "%s:%s:%s", "[%s]:%s:[%s]", "%s:[%s]:%s"):
             pool += [fmt % (a, c, d), fmt % (a, c, d) + "?"]
+    pool += ["SYSTem:VERSion?", "SYST:VERS?", "SYSTem:ERRor?", "SYSTem:ERRor:COUNt?", "SYSTem:ERRor:NEXT?", "SYSTem:VERSion", "SYSTem:ERRor:ALL?",
+             "SYSTem:[ERRor]:COUNt?"]
     seen, out = set(), []
     for p in pool:
         if p not in seen:
@@ -968,7 +977,9 @@ def tree_check(prop, tier):
     unakeys = {key(x) for x in una}
     K_amb = 40 if tier == "quick" else 400
     K_ctl = 90 if tier == "quick" else 1200
-    amb_s = amb[:K_amb]
+    # collisions with the built-in SYSTem commands first (they involve a handler the user never wrote)
+    amb_attr = [x for x in amb if x["std"] or x["err"]]
+    amb_s = (amb_attr[: K_amb // 3] + [x for x in amb if not (x["std"] or x["err"])])[:K_amb]
     # collision-free twins: flip the kind of the last declaration
     idx = {c: i + 1 for i, c in enumerate(pool)}
     twins = []
@@ -980,8 +991,10 @@ def tree_check(prop, tier):
             twins.append({"chosen": ch, "std": x["std"], "err": x["err"]})
     # always include singles with every attribute combination and the self-overlapping declarations
     musts = [x for x in una if len(x["chosen"]) == 1 and ("[" in pool[x["chosen"][0] - 1] or x["std"] or x["err"])]
+    shared = [x for x in una if x.get("shared")]
+    musts = musts[: K_ctl // 4] + shared[: K_ctl // 2]
     ctl, seen = [], set()
-    for x in twins + musts[: K_ctl // 2] + una:
+    for x in twins + musts + una:
         if key(x) not in seen and len(ctl) < K_ctl + len(twins):
             seen.add(key(x))
             ctl.append(x)
@@ -1037,6 +1050,9 @@ def tree_check(prop, tier):
         for k, x in enumerate(amb_s):
             d = set_desc("a%04d" % k, pool, x["chosen"], x["std"], x["err"])
             amods.append((d["name"], G.plain_module(d), d))
+            if len(x["chosen"]) > 1:
+                d2 = set_desc("a%04dr" % k, pool, list(reversed(x["chosen"])), x["std"], x["err"])
+                amods.append((d2["name"], G.plain_module(d2), d2))
         src, aranges = module_ranges([("_hdr", "// GENERATED: every module must be rejected by the macro\n")] + [(n, t) for n, t, _ in amods])
         with open(os.path.join(C.HARNESS, "ambig", "src", "lib.rs"), "w") as f:
             f.write(src)
@@ -1082,6 +1098,22 @@ def tree_check(prop, tier):
                 for q in (False, True):
                     for h in header_variants(s.rng, p, q, True)[1:]:
                         cases.append({"kind": "run", "iface": x["name"], "in": b(h + b"\n"), "w": {"k": "rec"}})
+    for x in emitted[:60 if tier == "quick" else 600]:
+        if x["name"] not in names:
+            continue
+        tests = sorted(x["tests"])
+        if not tests:
+            continue
+        for _ in range(25):
+            units = []
+            for _ in range(s.rng.randint(2, 4)):
+                p = s.rng.choice(tests)
+                q = s.rng.random() < 0.4
+                form = s.rng.choice(["abs", "full", "last", "last2"])
+                mn = p if form in ("abs", "full") else p[-1:] if form == "last" else p[-2:]
+                h = (b":" if form == "abs" else b"") + b":".join(bytes(m) for m in mn) + (b"?" if q else b"")
+                units.append(h)
+            cases.append({"kind": "run", "iface": x["name"], "in": b(b";".join(units) + b"\n"), "w": {"k": "rec"}})
     cpath = os.path.join(s.wd, "tree.cases.ndjson")
     opath = os.path.join(s.wd, "tree.trace.ndjson")
     C.write_ndjson(cpath, cases)
@@ -1270,6 +1302,20 @@ def c03_literals(rng, tier):
         fp = "".join(rng.choice("0123456789") for _ in range(rng.randint(0 if ip else 1, 20)))
         ex = rng.choice(["", "", "e%d" % rng.randint(-330, 310), "E%+d" % rng.randint(-50, 50)])
         fl.append(rng.choice(["", "-", "+"]) + ip + ("." + fp if fp or rng.random() < 0.2 else "") + ex)
+    # literals just above / just below the midpoint of two adjacent floats (double rounding shows here)
+    from fractions import Fraction
+    from vlib import floats as F
+    for ty in ("f32", "f64"):
+        pbits, emin, emax, ebits = F.FMT[ty]
+        for _ in range(60 if tier == "quick" else 1500):
+            m = rng.getrandbits(pbits - 1) | (1 << (pbits - 1))
+            e = rng.randint(emin - pbits + 1, emax - pbits + 1) if rng.random() < 0.5 else rng.randint(-40, 40)
+            mid = (Fraction(2 * m + 1) * Fraction(2) ** e) / 2
+            dec = F.frac_to_decimal(mid)
+            if len(dec) > 400:
+                continue
+            for lit in (dec, dec + "000000001" if "." in dec else dec + ".000000001", F.frac_to_decimal(mid - Fraction(1, 10 ** (len(dec) + 3)))):
+                out.append((ty, lit))
     for f in fl:
         if f.strip("+-") in ("", "."):
             continue
